@@ -3,6 +3,8 @@
 import io
 import os
 import sys
+import threading
+import time
 import wave
 from pathlib import Path
 
@@ -24,15 +26,17 @@ RULE = (
     "Cases = synthesized recording (as C05) x split parameters x container in {bytes, AudioRegion via function, "
     "AudioRegion.split, wav eager, wav lazy, raw eager (str path), raw lazy (Path), raw data behind a misleading "
     ".wav name with audio_format/fmt='raw', wav data behind a .raw name with fmt='wav', BufferAudioSource, "
-    "AudioReader(block_dur=window), standard input} x spelling of each of sr/sw/ch/aw/eth/uc/mr/fmt/val "
+    "AudioReader(block_dur=window), standard input (a BytesIO behind sys.stdin, or a real OS pipe fed by a thread in "
+    "pieces that do not line up with samples or windows)} x spelling of each of sr/sw/ch/aw/eth/uc/mr/fmt/val "
     "(long, short, or both with a conflicting short value) x optional max_read (whole samples or mid-sample). "
     "Files are written with stdlib wave/open. Oracle: (start sample, bytes) of the regions equal those of "
     "split(bytes, long names) of the same audio (itself compared with the reference pipeline of C05); with "
     "max_read=t the audio is first cut to round(t*rate) samples. Non-trivial = at least one region."
 )
 CONTAINERS = ("bytes", "region_fn", "region_method", "wav_eager", "wav_lazy", "raw_eager_str", "raw_lazy_path",
-              "raw_misleading_ext", "wav_misleading_ext", "buffer_source", "reader", "stdin")
-MUST_HIT = ["container_" + c for c in CONTAINERS] + ["conflicting_alias", "max_read_mid_window", "short_alias"]
+              "raw_misleading_ext", "wav_misleading_ext", "buffer_source", "reader", "stdin", "stdin_pipe")
+MUST_HIT = ["container_" + c for c in CONTAINERS] + ["conflicting_alias", "max_read_mid_window", "short_alias",
+                                                       "threshold_zero"]
 ASSUMPTIONS = ["split(bytes, long names) is the baseline, judged on its own by C05/C06"]
 BOUNDS = {"quick": dict(n=500, maxwin=24), "thorough": dict(n=5000, maxwin=80)}
 PAIRS = {"sr": "sampling_rate", "sw": "sample_width", "ch": "channels", "aw": "analysis_window",
@@ -43,6 +47,39 @@ _counter = [0]
 class _FakeStdin:
     def __init__(self, data):
         self.buffer = io.BytesIO(data)
+
+
+class _PipeStdin:
+    """sys.stdin stand-in over a real OS pipe fed, by a thread, in pieces that
+    do not line up with samples or windows and arrive a little apart."""
+
+    def __init__(self, data, sizes):
+        rfd, wfd = os.pipe()
+        self.buffer = io.BufferedReader(io.FileIO(rfd, "rb"))
+
+        def feed():
+            pos = i = 0
+            try:
+                while pos < len(data):
+                    n = sizes[i % len(sizes)]
+                    os.write(wfd, data[pos: pos + n])
+                    pos += n
+                    i += 1
+                    time.sleep(0.0004)
+            except OSError:
+                pass
+            finally:
+                os.close(wfd)
+
+        self.thread = threading.Thread(target=feed, daemon=True)
+        self.thread.start()
+
+    def finish(self):
+        try:
+            self.buffer.close()
+        except OSError:
+            pass
+        self.thread.join(10)
 
 
 def never(_frame):
@@ -129,7 +166,10 @@ def check_case(case, rec_):
         spell(kw, "aw", aw, sp.get("aw", "long"), aw * 3)
         if mr is not None:
             spell(kw, "mr", mr, sp.get("mr", "long"), mr / 2 + 1 / sr)
-    needs_params = cont in ("bytes", "raw_eager_str", "raw_lazy_path", "raw_misleading_ext", "stdin")
+    needs_params = cont in ("bytes", "raw_eager_str", "raw_lazy_path", "raw_misleading_ext", "stdin", "stdin_pipe")
+    if rec.get("thr0"):
+        classes.add("threshold_zero")
+    pipe = None
     if needs_params:
         spell(kw, "sr", sr, sp.get("sr", "long"), sr + 1)
         spell(kw, "sw", sw, sp.get("sw", "long"), {1: 2, 2: 4, 4: 1}[sw])
@@ -179,6 +219,11 @@ def check_case(case, rec_):
         elif cont == "stdin":
             sys.stdin = _FakeStdin(data)
             inp = "-"
+        elif cont == "stdin_pipe":
+            step = max(len(data) // 9, 1)
+            pipe = _PipeStdin(data, [step + 1, max(step - 2, 1), step + 3, 1])
+            sys.stdin = pipe
+            inp = "-"
         else:
             raise HarnessError(cont)
         if cont == "region_method":
@@ -187,6 +232,8 @@ def check_case(case, rec_):
             got = list(auditok.split(inp, **kw))
     finally:
         sys.stdin = old_stdin
+        if pipe is not None:
+            pipe.finish()
         for p in paths:
             try:
                 os.remove(p)
